@@ -32,7 +32,7 @@ func timeAlphabet() []time.Time {
 		time.Unix(0, 0).UTC(), // 1970-01-01: UnixNano()==0 but not the zero time
 		time.Date(2020, 1, 1, 0, 0, 0, 123456700, time.UTC),
 		time.Date(2020, 1, 1, 0, 0, 0, 123456789, time.UTC),               // sub-100ns part: truncated
-		time.Date(1969, 12, 31, 23, 59, 59, 999999911, time.UTC),         // negative UnixNano with sub-100ns part
+		time.Date(1969, 12, 31, 23, 59, 59, 999999911, time.UTC),          // negative UnixNano with sub-100ns part
 		time.Date(2021, 6, 1, 12, 0, 0, 500, time.FixedZone("x", 2*3600)), // non-UTC location
 		time.Unix(0, math.MaxInt64-math.MaxInt64%100).UTC(),               // upper end of the int64-ns range
 		time.Unix(0, math.MinInt64-math.MinInt64%100).UTC(),               // lower end of the int64-ns range (1677)
